@@ -142,6 +142,9 @@ func zeroOKGlobal(g *ssa.Global) bool {
 	switch g.String() {
 	case "encoding/binary.BigEndian", "encoding/binary.LittleEndian":
 		return true
+	case "time.Local", "time.UTC", "time.localLoc", "time.utcLoc":
+		// nil/zero location: instants are handled as UTC; time-zone dependent rendering is outside every claim
+		return true
 	}
 	return false
 }
@@ -685,7 +688,7 @@ func (e *Engine) doReturn(st *State, vals []Value) {
 func (e *Engine) step(st *State) {
 	f := st.top()
 	if f.ip >= len(f.blk.Instrs) {
-		panic(unsupported{"fell off block"})
+		panic(unsupported{"fell off block in " + f.fn.String()})
 	}
 	ins := f.blk.Instrs[f.ip]
 	f.ip++
@@ -696,6 +699,25 @@ func (e *Engine) step(st *State) {
 				if u, ok := r.(unsupported); ok {
 					if v, isV := ins.(ssa.Value); isV {
 						f.env[v] = Unknown{u.why}
+						return
+					}
+					switch ins.(type) {
+					case *ssa.If, *ssa.Jump, *ssa.Return, *ssa.Panic:
+						// abandon the failing callee: its result is unknown, the caller goes on
+						if os.Getenv("GOSYM_INITDBG") != "" {
+							fmt.Fprintf(os.Stderr, "init: abandoning %s at %s (%s)\n", f.fn, ins, u.why)
+						}
+						k := len(st.frames) - 1
+						for k >= 0 && st.frames[k] != f {
+							k--
+						}
+						if k <= 0 {
+							panic(u)
+						}
+						st.frames = st.frames[:k]
+						if f.call != nil {
+							st.top().env[f.call] = Unknown{"init-time callee abandoned: " + u.why}
+						}
 						return
 					}
 					return
